@@ -204,7 +204,7 @@ pub fn random_base(rng: &mut ChaCha8Rng, i: usize) -> Base {
     let t = rng.gen_range(1..=5usize).min(n - 1);
     let m = rng.gen_range(1..=12usize);
     let with_chopped = i % 3 == 0;
-    let mut polys = vec![];
+    let mut polys: Vec<Vec<Fq>> = vec![];
     let mut items = vec![];
     for j in 0..m {
         let mask = rng.gen_range(1..(1u32 << t));
